@@ -46,6 +46,8 @@ fn harvest(prop: &'static str, cfg: &PeerCfg, sim: &mut PeerSim, out: &mut CaseO
     out.count("cooperative_epilogues_completed", st.coop_completed);
     out.count("owed_retransmission_checks", st.owed_retransmission_checks);
     out.count("sack_blocks_checked", st.sack_blocks_checked);
+    out.count("set_keep_alive_calls", st.keep_alive_calls);
+    out.count("set_keep_alive_calls_in_time_wait", st.keep_alive_calls_in_time_wait);
     out.count("runs_with_finished", st.finished as u64);
     out.count("runs_with_seq_wrap", st.wrap as u64);
     out.count("max_ranges_open", st.max_holes as u64);
@@ -145,7 +147,7 @@ pub fn monitor_c17() -> super::Monitor {
         id: "C17",
         rule: "one event at a time (one injected segment via poll_ingress_single, one poll_egress with a time advance, or one API call), state() read before and after; the monitor classifies the event from its own bookkeeping (socket ISS from its SYN, its FIN position from the bytes written before close, the peer's in-order position from the receiver model, the window from emitted segments) and permits only the RFC 9293 edges: ESTABLISHED only on ack==ISS+1, CLOSE-WAIT/CLOSING/TIME-WAIT entry only on an in-order in-window FIN, FIN-WAIT-2 / LAST-ACK->CLOSED / CLOSING->TIME-WAIT only on ack==own FIN+1, reset only by an RST inside [last ACK emitted, advertised edge) (or the exactly expected RST|ACK in SYN-SENT), TIME-WAIT leaves only by its 10 s timer and does leave. A class is a distinct observed (state,event,next state) edge or (state, placement, ack class).",
         assumptions: &["an unchanged state is always permitted; only changes are judged", "a listener that returns to LISTEN ends the connection's run; in a third of the cases the same socket then serves one or two further connections (socket reuse after abort or after TIME-WAIT expiry) with a fresh model and another peer configuration"],
-        floors: &[("runs", 500), ("state_checks", 100_000), ("forbidden_edge_attempts", 10_000), ("rsts_outside_window", 500), ("distinct", 150)],
+        floors: &[("runs", 500), ("state_checks", 100_000), ("forbidden_edge_attempts", 10_000), ("rsts_outside_window", 500), ("set_keep_alive_calls_in_time_wait", 50), ("distinct", 150)],
         parts: vec![super::Part { name: "peer", cases: |c| c.n(20_000, 400_000), f: c17_case }],
         post: None,
     }
